@@ -35,6 +35,14 @@ Definition d_dt (x : sexp) : option dt :=
       obind (d_Z y) (fun y => obind (d_Z mo) (fun mo => obind (d_Z d) (fun d => obind (d_Z h) (fun h => obind (d_Z mi) (fun mi =>
       obind (d_Z s) (fun s => obind (d_Z us) (fun us => omap (fun tz => {| dy := y; dmo := mo; dd := d; dh := h; dmi := mi; ds := s; dus := us; dtz := tz |}) (d_opt d_Z tz))))))))
   | _ => None end.
+Definition d_ostr0 : sexp -> option (option str) := d_opt d_str.
+Definition d_attrs : sexp -> option (list (str * str)) := d_list (d_pair d_str d_str).
+Fixpoint d_nxml (x : sexp) : option nxml :=
+  match x with
+  | Lst [ns; l; a; t; Lst ch] =>
+      obind (d_str ns) (fun ns => obind (d_str l) (fun l => obind (d_attrs a) (fun a => obind (d_ostr0 t) (fun t =>
+      omap (NElem ns l a t) (sequence (map d_nxml ch))))))
+  | _ => None end.
 Definition tag_is (t : str) (s : string) : bool := str_eqb t (lit s).
 Fixpoint d_uav (x : sexp) : option uav :=
   match x with
@@ -56,6 +64,7 @@ Fixpoint d_uav (x : sexp) : option uav :=
       else if tag_is t "range" then match args with [a; b] => obind (d_str a) (fun a => omap (VRange a) (d_str b)) | _ => None end
       else if tag_is t "ext" then match args with [n; b] => obind (d_nodeid n) (fun n => omap (VExtObj n) (d_uav b)) | _ => None end
       else if tag_is t "xmlraw" then match args with [s] => omap VXmlRaw (d_str s) | _ => None end
+      else if tag_is t "xmltree" then match args with [s] => omap VXmlTree (d_nxml s) | _ => None end
       else if tag_is t "list" then
         match args with [tn; Lst items] => obind (d_str tn) (fun tn => omap (VList tn) (sequence (map d_uav items))) | _ => None end
       else if tag_is t "enum" then match args with [z; s; n] => obind (d_opt d_Z z) (fun z => obind (d_str s) (fun s => omap (VEnum z s) (d_str n))) | _ => None end
